@@ -25,7 +25,7 @@ Qed.
 Ltac unf :=
   unfold u_add, u_mul, u_sub, u_rem, u_div_ceil, u_wrapping_sub, u_wrapping_add, u_saturating_sub, u_min,
     u_checked_add, u_checked_mul, u_ge, u_gt, u_eq, i_ge, i_gt, i_eq, i_neg, i_checked_sub, i_as_usize,
-    o_expect, o_unwrap_or, o_if, olift2, obind, g_ck, acc_if, adeleg, acc_at, interp, sub0, sub1, sub2 in *.
+    i_unsigned_abs, o_expect, o_unwrap_or, o_if, olift2, obind, g_ck, acc_if, adeleg, acc_at, interp, sub0, sub1, sub2 in *.
 
 Lemma src_slice_len inner from to step :
   len_impl (Slice inner from to step) = gen_slice_len from to step.
@@ -118,9 +118,10 @@ Lemma src_ext a x y i :
   end.
 Proof.
   assert (S : forall s l, ext_src a s l i = gen_ext_get s l i) by (destruct a; reflexivity).
-  unfold gen_ext_new. cbn [get_impl len_impl]. unf.
-  destruct (len_impl x) as [la|]; [|reflexivity].
-  destruct (len_impl y) as [lb|]; [|reflexivity].
+  (* by cases on the two lengths and computation, whatever order the source binds them in *)
+  cbn [get_impl len_impl].
+  destruct (len_impl x) as [la|]; destruct (len_impl y) as [lb|];
+    unfold gen_ext_new; unf; cbv beta iota; try reflexivity.
   unfold ck. change usize_lim with g_usize_lim.
   destruct (N.ltb_spec (la + lb) g_usize_lim); [|reflexivity].
   split; [reflexivity|]. rewrite S. unfold gen_ext_get. unf.
@@ -251,15 +252,13 @@ Lemma src_get_idx pos len default :
   pos_ok pos -> gen_slice_get_idx pos len default = Some (slice_get_idx pos len default).
 Proof.
   unfold pos_ok, gen_slice_get_idx, slice_get_idx, i32_min, i32_max. intros H.
-  destruct pos as [v|]; [|reflexivity]. unf. unfold g_i32_min, g_usize_lim.
-  destruct (Z.ltb_spec v 0).
-  - destruct (Z.eqb_spec v (-2147483648)); [lia|].
-    f_equal. f_equal. f_equal. rewrite Z.mod_small by lia. reflexivity.
-  - f_equal. f_equal. rewrite Z.mod_small by lia. reflexivity.
+  destruct pos as [v|]; [|reflexivity]. unf. unfold g_i32_min, g_usize_lim. cbv beta iota.
+  destruct (Z.ltb_spec v 0); f_equal; lia.
 Qed.
 
-Lemma src_get_idx_i32_min len default :
-  gen_slice_get_idx (Some i32_min) len default = None.
+(** historical: the expression 4b122d6 replaced, `len.saturating_sub((-v) as usize)`, panicked at i32::MIN *)
+Lemma old_slice_position_i32_min_negation_panicked len :
+  u_saturating_sub (Some len) (i_as_usize (i_neg (Some i32_min))) = None.
 Proof. reflexivity. Qed.
 
 Lemma src_slice_ctor v index end_ step :
@@ -272,13 +271,4 @@ Proof.
   cbn [sres_bind]. unf.
   destruct step as [s|]; cbn [sres_bind];
     (destruct (N.leb_spec (slice_get_idx end_ len len) (slice_get_idx index len 0)); reflexivity).
-Qed.
-
-Lemma model_get_idx_i32_min len default :
-  slice_get_idx (Some i32_min) len default = (len - 2147483648)%N.
-Proof.
-  unfold slice_get_idx.
-  replace (i32_min <? 0)%Z with true by (vm_compute; reflexivity).
-  replace (Z.to_N (- i32_min)) with 2147483648 by (vm_compute; reflexivity).
-  reflexivity.
 Qed.
